@@ -403,6 +403,22 @@ func (n *refNode) processBlock(b dbft.Block[refHash]) error {
 	} else {
 		c.accepted[b.Index()] = h
 	}
+	// decision certificate under real cryptography: M current-view commits whose P-256
+	// signatures verify against exactly this block (all participants of this family run honest
+	// code and no primary proposes twice, so known finding D1 is out of reach here)
+	valid := 0
+	for i, cp := range n.d.CommitPayloads {
+		if cp == nil || cp.ViewNumber() != n.d.ViewNumber || i >= len(c.vals) {
+			continue
+		}
+		if cm := cp.GetCommit(); cm != nil && b.Verify(c.vals[i], cm.Signature()) == nil {
+			valid++
+		}
+	}
+	if m := c.nVal - (c.nVal-1)/3; valid < m {
+		c.violate("accepted_block_without_M_valid_commits", n.id, fmt.Sprintf("node %d accepted block %d in view %d holding %d current-view commits that verify against it (M=%d)", n.id, b.Index(), n.d.ViewNumber, valid, m))
+	}
+	c.st.ExNote["ref_certificate_verified_with_real_signatures"]++
 	c.st.Decided++
 	if b.Index() > c.st.MaxHeight {
 		c.st.MaxHeight = b.Index()
